@@ -67,7 +67,8 @@ def _shape(lines):
     return 'same_sides' if any(sides[i] == sides[j] for i in range(len(sides)) for j in range(i)) else 'distinct'
 
 
-PAIRS_Q = (('-1', '0.5'), ('0.5', '-1'), ('0', '-1'), ('0.5', '0'))
+# (-1,0.5) and (1,-0.5) are proportional: distinct texts that simplify to the same sides, which is what reaches merge()
+PAIRS_Q = (('-1', '0.5'), ('1', '-0.5'), ('0', '-1'))
 TRIPLES_T = (('-1', '0.5', '0'), ('0.5', '-1', '4'), ('0', '-1', '0.5'), ('0.5', '0', '-2'),
              ('-2', '4', '-0.5'), ('1', '1', '1'))
 
@@ -104,14 +105,14 @@ def simplify_programs(thorough):
         P.append(_prog('abc1', [l], abc[:2], variables=list(abc)))
     for l in _lines(_rows(SMALL, 3), abc, ('2.5',)):
         P.append(_prog('abc1x3', [l], abc, variables=list(abc)))
-    nm = _lines(PAIRS_Q, abc[:2], ('2.5',))
+    nm = _lines(PAIRS_Q if thorough else PAIRS_Q[:2], abc[:2], ('2.5',))
     for a in nm:
         for b in nm:
             P.append(_prog('abc2', [a, b], abc[:2], variables=list(abc)))
     xx = ('x1', 'x10')
     for l in _lines(_rows(COEF if thorough else SMALL, 2), xx, DS):
         P.append(_prog('x1x10:1', [l], xx))
-    nm = _lines(PAIRS_Q, xx, ('0', '2.5') if thorough else ('2.5',))
+    nm = _lines(PAIRS_Q if thorough else PAIRS_Q[:2], xx, ('0', '2.5') if thorough else ('2.5',))
     for a in nm:
         for b in nm:
             P.append(_prog('x1x10:2', [a, b], xx))
@@ -226,22 +227,35 @@ def run_simplify(prog, chooser, instr):
     return outcome, draws, _degenerate(instr.eqlog)
 
 
+_DEGEN = {}
+
+
 def _degenerate(eqlog):
     """True when some flip decision was taken at a test point lying on (or
     within NEAR of, or at a pole of) the boundary of the relation being rewritten"""
     for before, vals in eqlog:
-        try:
-            ln = rx.parse_line(before)
-            q = {}
-            for k, v in vals.items():
-                if isinstance(v, (int, float)) and v == v and abs(v) != float('inf'):
-                    q[k] = F(v)
-            g = ln.gap(q)
-        except (rx.ParseError, KeyError, TypeError, ValueError):
-            continue
-        if g is None or abs(g) <= NEAR:
+        key = (before, tuple(sorted((k, v) for k, v in vals.items() if isinstance(v, (int, float)))))
+        hit = _DEGEN.get(key)
+        if hit is None:
+            if len(_DEGEN) > 200000:
+                _DEGEN.clear()
+            hit = _DEGEN[key] = _on_boundary(before, vals)
+        if hit:
             return True
     return False
+
+
+def _on_boundary(before, vals):
+    try:
+        ln = rx.parse_line(before)
+        q = {}
+        for k, v in vals.items():
+            if isinstance(v, (int, float)) and v == v and abs(v) != float('inf'):
+                q[k] = F(v)
+        g = ln.gap(q)
+    except (rx.ParseError, KeyError, TypeError, ValueError):
+        return False
+    return g is None or abs(g) <= NEAR
 
 
 # ================================================================== evaluation
@@ -427,6 +441,9 @@ def check_program(T, prog, validate_memo=True):
         T.count('solve_calls_memoised', I.hits)
     T.count('programs')
     T.hist('family', prog['family'])
+    results = [r for o, r in outcomes.items() if o[0] != 'raised']
+    if results and not any(r['ngeneric'] for r in results):
+        T.hist('programs_whose_every_execution_had_a_test_point_on_the_boundary', prog['family'])
     T.hist('distinct_outcomes_per_program', len(outcomes))
     nontrivial = False
     for outcome, rec in outcomes.items():
@@ -444,6 +461,8 @@ def check_program(T, prog, validate_memo=True):
         T.hist('outcome', 'no_solution(None)' if kind == 'none' else '%d_case(s)' % len(cases), rec['n'])
         J = judge_cases(prog, in_lines, P, base, cases)
         T.count('evaluations', J['sat'] + J['unsat'])
+        T.hist('exact_arithmetic', 'dyadic program and result (boundary points judged)' if J.get('dyadic', True)
+               else 'non-dyadic literal (1e-9 margin around boundaries skipped)')
         T.count('points_excluded(input_divides_by_zero_or_nondyadic_margin)', J['skipped'])
         if J['sat'] and J['unsat'] and cases != (prog['text'],):
             nontrivial = True
@@ -496,7 +515,7 @@ def check_program(T, prog, validate_memo=True):
 def shard_simplify(progs):
     T = Tally()
     for prog in progs:
-        check_program(T, prog)
+        check_program(T, prog, validate_memo=prog.get('validate', True))
     if progs:
         T.sample({'simplify_program': progs[0]['text'], 'variables': progs[0]['variables'], 'family': progs[0]['family']}, limit=1)
     return T
@@ -671,9 +690,9 @@ def solve_cases(thorough):
     d2all = list(itertools.product(DS, repeat=2))
     d2q = [('0', '0'), ('-1', '2.5'), ('2.5', '0')]
     add(COEF, 2, 1, d1, x2)
-    add(COEF, 3, 1, d1, x3)
-    add(COEF, 2, 2, d2all if thorough else d2q, x2)
-    add(('-2', '-0.5', '0', '1', '4') if thorough else SMALL, 3, 2, d2q if thorough else d2q[1:], x3)
+    add(COEF if thorough else SMALL, 3, 1, d1, x3)
+    add(COEF, 2, 2, d2all if thorough else d2q[:2], x2)
+    add(('-2', '-0.5', '0', '1', '4') if thorough else SMALL, 3, 2, d2q[:2] if thorough else d2q[1:2], x3)
     # target order and naming schemes
     add(SMALL, 2, 2, d2q[1:2], x2, targets=(['x1', 'x0'], ['x1']))
     add(SMALL, 3, 2, d2q[1:2], x3, targets=(['x2', 'x1'],) if not thorough else (['x2', 'x1'], ['x1', 'x2', 'x0'], ['x2']))
@@ -1016,6 +1035,8 @@ def _chunks(seq, weight, target):
 def run(ctx):
     thorough = ctx.thorough
     progs = simplify_programs(thorough)
+    for i, p in enumerate(progs):      # harness self-check of the solve memo: every program (thorough), every 4th (quick)
+        p['validate'] = thorough or i % 4 == 0
     solves = solve_cases(thorough)
     texts = linsym_cases(thorough) + bounds_cases(thorough)
     # make sympy (imported lazily by mystic) resident before the workers fork
@@ -1048,7 +1069,7 @@ def run(ctx):
                 "non-trivial when free variables remain.  linear_symbolic / symbolic_bounds: one trace per call, non-trivial per distinct non-empty text.")
     ctx.assumptions = [
         "numeric literals are read as exact decimals by the reference interpreter; all simplify programs are dyadic so float and exact evaluation agree, boundary points are judged",
-        "mystic.symbolic.solve is memoised per program while rand answers are explored (pure function of its arguments; first call real; each program re-run once without the memo and required to reproduce its outcome)",
+        "mystic.symbolic.solve is memoised per program while rand answers are explored (pure function of its arguments; first call real; every program (quick: every 4th) is re-run once without the memo and required to reproduce its outcome)",
         "an execution whose flip decision was taken at a test point on (or within 1e-12 of, or at a pole of) the boundary of the relation is a null event of the "
         "continuous generator the rand alphabet stands for: a result produced only by such executions is recorded in evidence (verdict histogram) and not raised",
         "rational templates are classified by outcome (DESIGN section 5): mismatches of programs whose cases carry more than one condition line are recorded as outside the stated class",
@@ -1084,8 +1105,9 @@ def replay(case):
             return ['simplify(%r, all=True) -> %r: %s' % (case['text'], cases, J['problem'])]
         out = []
         for p, direction, pkind in J['mism'][:5]:
-            out.append('simplify(%r, all=True, rand answers %s) -> %r: (%s) %s [%s]%s'
-                       % (case['text'], draws, cases if outcome[0] != 'none' else None, _fmt_point(names, p),
+            out.append('simplify(%r%s, all=True, rand answers %s) -> %r: (%s) %s [%s]%s'
+                       % (case['text'], '' if not case.get('variables') else ', variables=%r' % case['variables'],
+                          draws, cases if outcome[0] != 'none' else None, _fmt_point(names, p),
                           'satisfies the input but no returned case' if direction == 'loses'
                           else 'violates the input but satisfies a returned case', pkind,
                           ' [test point on the boundary]' if degenerate else ''))
